@@ -17,6 +17,7 @@ NPROC = int(os.environ.get("VERIF_WORKERS", "16"))
 sys.path.insert(0, VERIF)
 from checks import CHECKS, VARIANTS_ALL   # table: property -> jobs
 
+CURRENT_PROP = ""      # the property being checked: workers minimise the violation of this property when a run violates several
 FATAL_KIND = {77: "sanitizer", 76: "terminate", 78: "deadlock", 79: "step_budget"}
 
 
@@ -57,7 +58,7 @@ def run_chunk(job, tier, a, b, timeout_s, keep_stderr=None):
     results, crashes = [], []
     cur = a
     while cur <= b:
-        cmd = job.wrapper + [simrun_path(job.variant), "--workload", job.workload, "--tier", tier, "--seeds", "%d:%d" % (cur, b), "--dual", str(job.dual)] + job.args
+        cmd = job.wrapper + [simrun_path(job.variant), "--workload", job.workload, "--tier", tier, "--seeds", "%d:%d" % (cur, b), "--dual", str(job.dual)] + job.args + (["--prop", CURRENT_PROP] if CURRENT_PROP else [])
         if job.focus:
             cmd += ["--focus", job.focus]
         env = dict(os.environ); env.update(job.env); env.setdefault("TMPDIR", SCRATCH_BASE)
@@ -494,6 +495,8 @@ def main():
     if prop not in CHECKS:
         log("unknown property", prop); return 2
     spec = CHECKS[prop]
+    global CURRENT_PROP
+    CURRENT_PROP = prop
     if "custom" in spec:
         return spec["custom"](prop, tier, seed0)
     return run_property(prop, spec, tier, seed0)
